@@ -258,6 +258,9 @@ def load_known(path=None):
                 ln = ln.strip()
                 if not ln or ln.startswith("#"):
                     continue
+                if ln.startswith("fixed:"):
+                    fixed.append(ln)
+                    continue
                 e = json.loads(ln)
                 if e.get("status") == "known":
                     known[(e["property"], e["key"])] = e
